@@ -58,6 +58,9 @@ type stSess struct {
 	swPreList []string         // contents of the destination before the stream writer started
 	swData    []*pb.KV         // everything written through the stream writer
 	swOld     map[uint64]bool  // table ids present when the stream writer was prepared
+	pending   bool             // between stream-begin and stream-end
+	pendBegin []string         // the words of the stream-begin line
+	pendMid   []string         // the op lines to run at the mid-run point
 	f20       map[*mvSess]bool // a level-jumping compaction already changed a read of this DB
 	lastKVs   [][]*pb.KV       // output of the last stream op, one list per range
 	st        *Stats
@@ -406,6 +409,12 @@ func splitsOf(rs []kvRange) string {
 // runStream configures a Stream from the op's parameters, runs it (production Orchestrate, or
 // the stepped schedule when pre/mid are given) and groups the KVs received by Send.
 func (s *stSess) runStream(mv *mvSess, kv map[string]string, backupTo *bytes.Buffer) (*streamRun, []kvRange, uint64) {
+	return s.runStreamMid(mv, kv, backupTo, nil)
+}
+
+// runStreamMid: midFn (stepped schedule only) replaces the single mid-run commit by an arbitrary
+// script run at the same point of the schedule.
+func (s *stSess) runStreamMid(mv *mvSess, kv map[string]string, backupTo *bytes.Buffer, midFn func()) (*streamRun, []kvRange, uint64) {
 	numGo := kvInt(kv, "numgo", 1)
 	var st *badger.Stream
 	if mv.managed {
@@ -488,6 +497,9 @@ func (s *stSess) runStream(mv *mvSess, kv map[string]string, backupTo *bytes.Buf
 				run.mid = "err:discarded"
 			}
 		}
+	}
+	if midFn != nil {
+		mid = midFn
 	}
 	tRun := time.Now()
 	if os.Getenv("VERIF_TIMING") == "2" {
@@ -667,7 +679,12 @@ func (s *stSess) doStream(w []string, line string, emit func(string, string), fa
 	emit(op, fmt.Sprintf("ok mid=%s done=%d %s", midS, run.done, fmtKVLists(run.lists[:min(len(run.lists), len(ranges))])))
 	s.lastKVs = run.lists
 	s.st.Inc(fmt.Sprintf("stream:numgo=%s,ranges=%s,sched=%s", kv["numgo"], sizeBucket(len(ranges)), kv["sched"]))
-	// ---- oracles
+	s.judgeStream(mv, kv, run, ranges, snap, keys, snapTs, fail)
+}
+
+// judgeStream: the oracles of one Stream run against the single snapshot `snap` (taken at snapTs).
+func (s *stSess) judgeStream(mv *mvSess, kv map[string]string, run *streamRun, ranges []kvRange,
+	snap map[string][]snapItem, keys []string, snapTs uint64, fail func(string, string)) {
 	if len(run.lists) != len(ranges) {
 		fail("C25-range", fmt.Sprintf("a stream id delivered keys belonging to no key range (%d lists, %d ranges)", len(run.lists), len(ranges)))
 	}
@@ -716,6 +733,11 @@ func (s *stSess) doStream(w []string, line string, emit func(string, string), fa
 			want = specToList(vs, mv.keep)
 		}
 		if strings.Join(want, ",") != strings.Join(got[k], ",") {
+			if !multi && len(want) > 0 && len(got[k]) == 0 {
+				fail("C25-missing-at-snapshot", fmt.Sprintf("key %s was not delivered; the snapshot at the run's start (ts=%d) holds [%s] (all producers read at %v)",
+					hx([]byte(k)), snapTs, strings.Join(want, ","), sortedTs(run.rts)))
+				return
+			}
 			if multi {
 				fail("F7:stream-multi-snapshot", fmt.Sprintf("producers read at different timestamps %v: key %s delivered [%s], the snapshot at the run's start (ts=%d) holds [%s]",
 					sortedTs(run.rts), hx([]byte(k)), strings.Join(got[k], ","), snapTs, strings.Join(want, ",")))
@@ -761,6 +783,50 @@ func (s *stSess) doStream(w []string, line string, emit func(string, string), fa
 			}
 		}
 	}
+}
+
+// stream-begin <params> … stream-end: one stepped Stream run whose mid-run point (just before
+// producer `pre` starts; the run's snapshot is pinned by then) executes the op lines in between
+// on the same DB: commits of newer versions and deletes, readers that come and go, flushes,
+// production compactions. Final lines: `stream-begin …` (emitted when the mid-run point is
+// reached), the lines of the script with their own outputs (a compaction's `discard=` is the
+// watermark badger used: the run's read mark must hold it back), `stream-end` with the delivered
+// lists. Judged against the snapshot taken when the run starts.
+func (s *stSess) doStreamSpan(emit func(string, string), fail func(string, string)) {
+	w, mids := s.pendBegin, s.pendMid
+	s.pending, s.pendBegin, s.pendMid = false, nil, nil
+	mv := s.curMv()
+	kv := kvWords(w[1:])
+	kv["sched"] = "step"
+	delete(kv, "mid")
+	snap, keys, snapTs := s.snapshot(mv, kv, uint64(kvInt(kv, "since", 0)))
+	begun := false
+	midFn := func() {
+		begun = true
+		emit(strings.Join(w, " "), "ok")
+		for _, l := range mids {
+			mw := strings.Fields(l)
+			if len(mw) == 0 || mw[len(mw)-1] == "ev=1" {
+				continue
+			}
+			s.st.Inc("midrun-op:" + mw[0])
+			if !s.basicOp(mw, l, emit, fail) {
+				emit(l, "bad-op")
+			}
+		}
+	}
+	run, ranges, _ := s.runStreamMid(mv, kv, nil, midFn)
+	if !begun {
+		emit(strings.Join(w, " "), "ok")
+	}
+	if run.err != nil {
+		emit("stream-end", "err:"+strings.ReplaceAll(run.err.Error(), " ", "_"))
+		return
+	}
+	emit("stream-end", fmt.Sprintf("ok done=%d %s", run.done, fmtKVLists(run.lists[:min(len(run.lists), len(ranges))])))
+	s.lastKVs = run.lists
+	s.st.Inc(fmt.Sprintf("stream-span:ranges=%s,pre=%s", sizeBucket(len(ranges)), kv["pre"]))
+	s.judgeStream(mv, kv, run, ranges, snap, keys, snapTs, fail)
 }
 
 // stream-race numgo=N: the production Orchestrate, free running, while another goroutine commits
@@ -1467,6 +1533,16 @@ func execStreamEng(intents []string, st *Stats) (final, outs, oracle []string) {
 			emit(line, "bad-op")
 			continue
 		}
+		if s.pending && w[0] != "reset" {
+			if w[0] == "stream-end" {
+				st.Inc("op:stream-span")
+				s.doStreamSpan(emit, fail)
+			} else {
+				s.pendMid = append(s.pendMid, line)
+			}
+			continue
+		}
+		s.pending = false
 		st.Inc("op:" + w[0])
 		if os.Getenv("VERIF_TIMING") != "" {
 			t0 := time.Now()
@@ -1503,6 +1579,10 @@ func execStreamEng(intents []string, st *Stats) (final, outs, oracle []string) {
 			s.doReopen(line, emit, fail)
 		case "stream":
 			s.doStream(w, line, emit, fail)
+		case "stream-begin":
+			s.pending, s.pendBegin, s.pendMid = true, w, nil
+		case "stream-end":
+			emit(line, "bad-op")
 		case "stream-race":
 			s.doStreamRace(w, line, emit, fail)
 		case "backup":
@@ -1534,6 +1614,9 @@ func execStreamEng(intents []string, st *Stats) (final, outs, oracle []string) {
 				emit(line, "bad-op")
 			}
 		}
+	}
+	if s.pending && s.curMv() != nil && s.curMv().db != nil {
+		s.doStreamSpan(emit, fail) // a script cut off before its stream-end
 	}
 	return
 }
@@ -1768,7 +1851,62 @@ func genStreamEng(rng *rand.Rand, n int, st *Stats, kind string) []string {
 	return ops
 }
 
+// spanStream: a stepped run with a script at its mid-run point: newer versions and deletes of
+// the keys, readers that come and go (they move the read watermark unless the run holds it),
+// flushes and production compactions. One version is kept (NumVersionsToKeep=1) so that what
+// ToList delivers does not depend on whether a range was read before or after a compaction.
+func (g *stGen) spanStream() {
+	nsplit := 1 + g.rng.Intn(3)
+	var sp []string
+	for i := 0; i < nsplit; i++ {
+		sp = append(sp, hx(g.keys[g.rng.Intn(len(g.keys))]))
+	}
+	o := fmt.Sprintf("numgo=%d splits=%s pre=%d", nsplit+1, strings.Join(sp, ","), pick(g.rng, 0, 0, 1, 1, 2))
+	if g.rng.Intn(4) == 0 {
+		o += " done=1"
+	}
+	if g.managed {
+		o += fmt.Sprintf(" at=%d", g.cts)
+	}
+	g.add("stream-begin %s", o)
+	for r := 0; r < 1+g.rng.Intn(2); r++ {
+		// overwrite / delete most keys
+		for i := 0; i < 1+g.rng.Intn(3); i++ {
+			id := g.nextID
+			g.nextID++
+			g.add("begin %d 1 %d", id, g.rts())
+			for _, k := range g.keys {
+				if g.rng.Intn(3) != 0 {
+					g.setLine(id, k)
+				}
+			}
+			g.add("commit %d %d", id, g.commitTs())
+		}
+		// a reader comes and goes
+		id := g.nextID
+		g.nextID++
+		g.add("begin %d 0 %d", id, g.rts())
+		g.add("discard %d", id)
+		g.add("flush")
+		g.add("compact this=0 id=0 adj=1.5")
+		if g.rng.Intn(2) == 0 {
+			g.add("compact pick=%d id=0 adj=1.5", g.rng.Intn(8))
+		}
+	}
+	g.add("stream-end")
+}
+
 func (g *stGen) genStream() {
+	if g.rng.Intn(4) == 0 {
+		// compactions during a run
+		g.add("reset %s", strings.Replace(strings.Replace(strings.Replace(g.dbParams(), "keep=2 ", "keep=1 ", 1), "keep=1000 ", "keep=1 ", 1), "keep=3 ", "keep=1 ", 1))
+		g.build(2 + g.rng.Intn(5))
+		for i := 0; i < 1+g.rng.Intn(2); i++ {
+			g.spanStream()
+			g.build(g.rng.Intn(2))
+		}
+		return
+	}
 	g.add("reset %s", g.dbParams())
 	g.build(2 + g.rng.Intn(6))
 	for i := 0; i < 1+g.rng.Intn(3); i++ {
